@@ -8,3 +8,4 @@
 -/
 import ForsysModel.Props.C05
 import ForsysModel.Props.C05bound
+import ForsysModel.Props.C05more
